@@ -38,6 +38,7 @@ def obs_acq(c):
 def run_history(case, keep_obs):
     """keep_obs: set of command positions whose observation is performed (others are erased). Returns {pos: answer}."""
     answers = {}
+    overrides = []       # inner overrides entered by the history, innermost last
     with contextlib.ExitStack() as stack:
         stack.enter_context(temporary_override_get_registry_at({GlobalRegistryKey[k]: v for k, v in case['env'].items()}))
         clear_caches()
@@ -45,54 +46,63 @@ def run_history(case, keep_obs):
         c = DeclarativeCircuit()
         entries = []
         flattened = False
-        for pos, cmd in enumerate(case['cmds']):
-            k = cmd[0]
-            if k == 'add':
-                lc = cmd[1]
-                rel = None
-                r = lc.get('rel')
-                if r is not None:
-                    rel = RelationLink(co.Wait(99), RT[r[1]]) if r[0] == 'dangling' else RelationLink(entries[r[1]], RT[r[0]])
-                op = b.make_leaf(lc, rel, c)
-                entries.append(c.add(op))
-            elif k == 'sub':
-                sub = b.build(cmd[2], cmd[1], top=False)
-                entries.append(c.add(sub))
-            elif k == 'grow':
-                op = b.make_leaf(cmd[2], None, c)
-                entries[cmd[1]].add(op)
-            elif k == 'mods':
-                c = c.apply_modifiers()
-            elif k == 'flatten':
-                c = c.flatten()
-            elif k == 'setreg':
-                b.registry.set_registry_at(cmd[1], cmd[2])
-            elif k == 'global':
-                stack.enter_context(temporary_override_get_registry_at({GlobalRegistryKey[kk]: v for kk, v in cmd[1].items()}))
-            elif k == 'obs':
-                if pos not in keep_obs:
-                    continue
-                what = cmd[1]
-                if what == 'listing':
-                    answers[pos] = obs_listing(c)
-                elif what == 'duration':
-                    answers[pos] = {'duration': ticks(c.duration)}
-                elif what == 'acq':
-                    answers[pos] = {'acq': obs_acq(c)}
-                elif what == 'stim':
-                    answers[pos] = {'stim': str(to_stim(c))}
-                elif what == 'copy':
-                    d = DeclarativeCircuit()
-                    d._structure = c.circuit_structure.copy()
-                    answers[pos] = obs_listing(d)
-                elif what == 'plot':
-                    fig, ax = plot_circuit(c)
-                    plt.close(fig)
-                    answers[pos] = {'plotted': True}
+        try:
+            for pos, cmd in enumerate(case['cmds']):
+                k = cmd[0]
+                if k == 'add':
+                    lc = cmd[1]
+                    rel = None
+                    r = lc.get('rel')
+                    if r is not None:
+                        rel = RelationLink(co.Wait(99), RT[r[1]]) if r[0] == 'dangling' else RelationLink(entries[r[1]], RT[r[0]])
+                    op = b.make_leaf(lc, rel, c)
+                    entries.append(c.add(op))
+                elif k == 'sub':
+                    sub = b.build(cmd[2], cmd[1], top=False)
+                    entries.append(c.add(sub))
+                elif k == 'grow':
+                    op = b.make_leaf(cmd[2], None, c)
+                    entries[cmd[1]].add(op)
+                elif k == 'mods':
+                    c = c.apply_modifiers()
+                elif k == 'flatten':
+                    c = c.flatten()
+                elif k == 'setreg':
+                    b.registry.set_registry_at(cmd[1], cmd[2])
+                elif k == 'global':
+                    cm = temporary_override_get_registry_at({GlobalRegistryKey[kk]: v for kk, v in cmd[1].items()})
+                    cm.__enter__()
+                    overrides.append(cm)
+                elif k == 'unglobal':
+                    if overrides:
+                        overrides.pop().__exit__(None, None, None)
+                elif k == 'obs':
+                    if pos not in keep_obs:
+                        continue
+                    what = cmd[1]
+                    if what == 'listing':
+                        answers[pos] = obs_listing(c)
+                    elif what == 'duration':
+                        answers[pos] = {'duration': ticks(c.duration)}
+                    elif what == 'acq':
+                        answers[pos] = {'acq': obs_acq(c)}
+                    elif what == 'stim':
+                        answers[pos] = {'stim': str(to_stim(c))}
+                    elif what == 'copy':
+                        d = DeclarativeCircuit()
+                        d._structure = c.circuit_structure.copy()
+                        answers[pos] = obs_listing(d)
+                    elif what == 'plot':
+                        fig, ax = plot_circuit(c)
+                        plt.close(fig)
+                        answers[pos] = {'plotted': True}
+                    else:
+                        raise ValueError(what)
                 else:
-                    raise ValueError(what)
-            else:
-                raise ValueError(k)
+                    raise ValueError(k)
+        finally:
+            while overrides:
+                overrides.pop().__exit__(None, None, None)
         b_leafinfo = b.leafinfo
     clear_caches()
     assert GlobalDurationRegistry.get_registry_at is ORIGINAL_GET
